@@ -48,7 +48,7 @@ def main(ctx):
     ctx.audit(GROUP)
     failed = ctx.prove(GROUP, "Props_C39", THEOREMS)
     bindir = ctx.harness(GROUP, profile="release", bins=["c39"])
-    cases = ctx.gen_exec(bindir, "c39", ctx.n(2500, 30000), inputs=ctx.replay_inputs())
+    cases = ctx.gen_exec(bindir, "c39", ctx.n(2500, 15000), inputs=ctx.replay_inputs())
     ctx.correspond("CtcDecoder", GROUP, REQ, cases, classify=classify, show="show", shard=250,
                    fn_name="Ctc.ModelCtc.{greedy_steps,decode_beam_nbest}")
     # informational (no alarm): how many cases had their beam comparison skipped (ranking gap below the
